@@ -1,5 +1,50 @@
-(* C17: struct tags round-trip through reflect.StructTag.  Statements only; proofs are in Proofs/. *)
-From Jen Require Import Model.Render.
+(* C17: struct tags round-trip through reflect.StructTag.
+   Statements only; every proof is `exact` of a lemma of Proofs/. *)
+From Jen Require Import Base.Bytes Base.Sort GoStd.Quote GoStd.StructTag GoStd.IsPrint Model.Render.
+From Jen Require Import Proofs.QuoteProofs Proofs.TagProofs.
+From Coq Require Import Permutation Sorted.
 
+(* For every map (list of pairs with pairwise distinct keys, in any order) from conventional
+   keys - non-empty, every byte above space and none of colon, double quote, DEL - to
+   ARBITRARY byte strings: the rendered tag is one Go string literal (raw or interpreted);
+   its value, read with reflect.StructTag.Lookup, returns exactly the given value for
+   every key; the pairs appear in key order. *)
+Theorem C17_tag_roundtrip : forall kvs : list (str * str),
+  NoDup (map fst kvs) -> Forall conv_key (map fst kvs) -> kvs <> [] ->
+  exists body,
+    go_string_value (tag_text kvs) = Some body /\
+    (forall k v, In (k, v) kvs -> struct_tag_lookup body k = Some v) /\
+    body = join (S " ") (map (item go_is_print) (isort_by fst kvs)) /\
+    StronglySorted (key_le fst) (isort_by fst kvs) /\ Permutation (isort_by fst kvs) kvs.
+Proof. exact tag_roundtrip. Qed.
+
+(* An empty map renders nothing and is skipped by the enclosing statement. *)
 Theorem C17_empty_tag_null : forall cfg t, is_null cfg t (CTag []) = true /\ tag_text [] = [].
 Proof. intros; split; reflexivity. Qed.
+
+(* The text does not depend on the order in which the runtime iterates the map. *)
+Theorem C17_tag_order_independent : forall kvs kvs',
+  NoDup (map fst kvs) -> Permutation kvs kvs' -> tag_text kvs = tag_text kvs'.
+Proof. exact tag_text_perm. Qed.
+
+(* The two literal forms read back, for every byte string (used by the theorem above). *)
+Theorem C17_interpreted_literal : forall s, go_string_value (Quote go_is_print s) = Some s.
+Proof. exact (Quote_roundtrip go_is_print go_is_print_nl). Qed.
+Theorem C17_raw_literal : forall s R, CanBackquote s = true ->
+  scan_string_lit ([c_bq] ++ s ++ [c_bq] ++ R) = Some (s, R).
+Proof. exact backquoted_roundtrip. Qed.
+
+(* Non-vacuity: a map with a quote, a backquote and a newline in its values meets the
+   hypotheses, and the computed lookups agree with the theorem. *)
+Example C17_example :
+  let kvs := [(S "json", [x61; x22; x62]); (S "b", [x60; x0a]); (S "a-1", [])] in
+  NoDup (map fst kvs) /\ Forall conv_key (map fst kvs) /\ kvs <> [] /\
+  (match go_string_value (tag_text kvs) with
+   | Some body => map (struct_tag_lookup body) (map fst kvs)
+   | None => []
+   end) = map (fun kv => Some (snd kv)) kvs.
+Proof.
+  cbv zeta. split; [|split; [|split; [discriminate | vm_compute; reflexivity]]].
+  - repeat constructor; simpl; intuition discriminate.
+  - repeat constructor; discriminate.
+Qed.
